@@ -201,7 +201,7 @@ fn corpus_ids() -> Vec<&'static str> {
 
 const BLOCK: u64 = 6000;
 fn cases(tier: Tier) -> u64 {
-    tier.pick(150_000, 3_000_000)
+    tier.pick(600_000, 3_000_000)
 }
 
 pub fn case_strategy() -> impl Strategy<Value = (Vec<u8>, Vec<u8>, bool)> {
